@@ -6,6 +6,8 @@ SPEC = dict(
     harness="c26.cpp",
     theorems=[
         # value preservation of the constructor functions
+        "SymVerif.C26.diagonal_matrix_value",
+        "SymVerif.C26.immutable_dense_matrix_value",
         "SymVerif.C26.matrix_add_value",
         "SymVerif.C26.matrix_mul_value",
         "SymVerif.C26.hadamard_value",
